@@ -21,6 +21,7 @@ import (
 	"os"
 	"os/exec"
 	"regexp"
+	"runtime"
 	"sort"
 	"strings"
 	"time"
@@ -151,6 +152,27 @@ func main() {
 	flag.Parse()
 
 	rep := Report{Property: *prop, Tier: *tier, Seed: *seed, Kinds: map[string]int{}}
+	// Watchdog: the real code is called in-process; if it never returns the run
+	// would hang.  After the limit, report the stack of the stuck call and stop.
+	limit := 600 * time.Second
+	if *tier == "thorough" {
+		limit = 5400 * time.Second
+	}
+	go func() {
+		time.Sleep(limit)
+		buf := make([]byte, 1<<16)
+		n := runtime.Stack(buf, true)
+		st := string(buf[:n])
+		if i := strings.Index(st, "goroutine 1 ["); i >= 0 {
+			st = st[i:]
+		}
+		if len(st) > 1500 {
+			st = st[:1500]
+		}
+		emit(Report{Property: *prop, Tier: *tier, Seed: *seed, Kinds: map[string]int{},
+			Error: fmt.Sprintf("no result after %v: probable non-termination of the real code; main goroutine: %s", limit, st)})
+		os.Exit(3)
+	}()
 	ctx := &Ctx{prop: *prop, tier: *tier, rng: rand.New(rand.NewSource(*seed)), thor: *tier == "thorough"}
 	if *replay != "" {
 		replayFile(ctx, *replay)
